@@ -161,8 +161,8 @@ def run(ctx):
     mfields = [x["name"] for x in prog.adt_fields("bourse_book::market::Market")]
     if wt and rk:
         keys = [k for k, _s, _c in wt[1]]
-        ctx.check(keys == mfields and rk[1] == set(mfields) and rk[2] == len(mfields) and not rk[3], "tables", "Market", ctx.loc(wt[0]),
-                  "Market serialises and reads back its book array under %s" % mfields, "Market writer keys %s reader keys %s" % (keys, sorted(rk[1])))
+        ctx.check(len(keys) == len(mfields) and rk[1] == set(keys) and rk[2] == len(mfields) and not rk[3], "tables", "Market", ctx.loc(wt[0]),
+                  "Market serialises and reads back its book array under the same key %s" % keys, "Market writer keys %s reader keys %s (fields %s)" % (keys, sorted(rk[1]), mfields))
 
     # ------------------------------------------------------------ OrderBook::deserialize goes through the reader + loader
     ds = [f for f in serde_fns(ctx, BOOK, "Deserialize<'de>", "deserialize")]
@@ -191,7 +191,7 @@ def run(ctx):
               "loader files stored entries on both sides: pre-state Active/unfiled/own side, stored key, stored id, remaining volume (typestate)",
               "loader insertion sites: %s" % [(o[1], o[2]) for o in lops])
     for o in lops:
-        ctx.check({t[0] for t in o[4]} == {"Active"}, "loader", "active-only|" + o[2], o[3], "only entries whose stored status is Active are filed (%s side)" % o[2])
+        ctx.check({t[0] for t in o[4]} == {"Active"}, "loader", "active-only|" + str(o[2]), o[3], "only entries whose stored status is Active are filed (%s side)" % o[2])
     r = lq.ret()
     aggs = [x for x in walk(r) if x[0] == "agg" and x[1] == "adt" and x[2].endswith("OrderBook::OrderBook")]
     if aggs:
@@ -251,7 +251,9 @@ def run(ctx):
             if c.name in ("from_residual",):
                 continue
             r = c.result
-            used = any(b2.args and any(y == r for y in walk(b2.args[0])) for b2 in q.calls("branch")) or any(y == r for y in walk(ret))
+            used = any(b2.args and any(y == r for y in walk(b2.args[0])) for b2 in q.calls("branch")) or any(y == r for y in walk(ret)) \
+                or any(any(y == r for y in walk(a[1])) for blk_ in q.body.blocks if not blk_.cleanup and blk_.term is not None and blk_.term.k == "switch"
+                       for s_ in set(q.body.succs(blk_.i)) for a in q.cfg.edge_atoms(blk_.i, s_) if a[0] == "variant")   # explicitly matched on
             if not used:
                 bad.append(c.name)
         ctx.check(not bad, "save-load", "propagates|" + f.short(), ctx.loc(f), "%s: every fallible step is propagated with `?` or returned" % f.short(),
@@ -316,7 +318,7 @@ def run(ctx):
     for f in (m.book_fn("load_json"), m.market_fn("load_json")):
         q = m.qi(f)
         fr = [c for c in q.calls(("from_reader", "from_slice", "from_str")) if "serde_json" in c.resolved]
-        ok = len(fr) == 1 and not [a for a in fr[0].guards if not (a[0] == "variant" and a[2] == ("Continue",))]
+        ok = len(fr) == 1 and not [a for a in fr[0].guards if not (a[0] == "variant" and a[2] in (("Continue",), ("Ok",)))]
         if ok:
             src = fr[0].args[0]
             ok = path_param(src) and (has_call(src, "open", "fs::File") or has_call(src, "read") or has_call(src, "read_to_string"))
